@@ -3,26 +3,29 @@ every rejection is a ValueError; no NaN/inf from the formulas inside the documen
 from obligations import obl
 from harness import o_burn as B
 
-_M, _F, _T = 'EPV.Props.C20.Burn', 'EPV.Props.C20.FindingBurn', 'EPV.C20.'
+_M, _F, _T = 'EPV.Props.C20.Burn', 'EPV.Props.C20.FindingBurn', 'EPV.C20.'   # one module per solver: _M + 'K1' …
 _RUN = ['K1d2', 'K1d3', 'K2d2', 'K2d3', 'K3d2', 'K3d3', 'DSDCyl']
 _o = [
-    obl('C20.burn.k1.constructor', _M, [_T + n for n in ('k1init2_accepts_iff', 'k1init3_accepts_iff',
+    obl('C20.burn.k1.constructor', _M + 'K1', [_T + n for n in ('k1init2_accepts_iff', 'k1init3_accepts_iff',
                                                          'k1init2_rejects_valueerror', 'k1init3_rejects_valueerror')],
         ['K1Init2', 'K1Init3'], B.catalogue_k1),
-    obl('C20.burn.k2.constructor', _M, [_T + n for n in ('k2init_accepts_iff_coded', 'k2init_accepts_of_documented',
+    obl('C20.burn.k2.constructor', _M + 'K2', [_T + n for n in ('k2init_accepts_iff_coded', 'k2init_accepts_of_documented',
                                                          'k2init_rejects_valueerror')], ['K2Init'], B.catalogue_k2),
-    obl('C20.burn.k3.constructor', _M, [_T + n for n in ('k3init2_accepts_iff', 'k3init3_accepts_iff',
+    obl('C20.burn.k3.constructor', _M + 'K3', [_T + n for n in ('k3init2_accepts_iff', 'k3init3_accepts_iff',
                                                          'k3init2_rejects_valueerror', 'k3init3_rejects_valueerror')],
         ['K3Init2', 'K3Init3'], B.catalogue_k3),
-    obl('C20.burn.dsd.constructor', _M, [_T + n for n in ('dsdcylinit_accepts_iff_coded', 'dsdcylinit_accepts_of_documented',
+    obl('C20.burn.dsd.constructor', _M + 'DSD', [_T + n for n in ('dsdcylinit_accepts_iff_coded', 'dsdcylinit_accepts_of_documented',
                                                           'dsdcylinit_rejects_valueerror')], ['DSDCylInit'], B.catalogue_dsd),
     # the traced constructor trees against the real constructors (outcome class, boundary and malformed values)
     obl('C20.burn.init_models', tie=B.init_tie),
-    obl('C20.burn.run_outcomes', _M, [_T + m.lower() + '_run_outcomes' for m in _RUN], _RUN),
-    obl('C20.burn.k1.well_defined', _M, [_T + 'k1d2_welldefined', _T + 'k1d3_welldefined'], ['K1d2', 'K1d3'], B.finite['k1']),
-    obl('C20.burn.k2.well_defined', _M, [_T + 'k2d2_welldefined', _T + 'k2d3_welldefined'], ['K2d2', 'K2d3'], B.finite['k2']),
-    obl('C20.burn.k3.well_defined', _M, [_T + 'k3d2_welldefined', _T + 'k3d3_welldefined'], ['K3d2', 'K3d3'], B.finite['k3']),
-    obl('C20.burn.dsd.well_defined', _M, [_T + 'dsdcyl_welldefined'], ['DSDCyl'], B.finite['dsd']),
+    obl('C20.burn.k1.run_outcomes', _M + 'K1', [_T + 'k1d2_run_outcomes', _T + 'k1d3_run_outcomes'], ['K1d2', 'K1d3']),
+    obl('C20.burn.k2.run_outcomes', _M + 'K2', [_T + 'k2d2_run_outcomes', _T + 'k2d3_run_outcomes'], ['K2d2', 'K2d3']),
+    obl('C20.burn.k3.run_outcomes', _M + 'K3', [_T + 'k3d2_run_outcomes', _T + 'k3d3_run_outcomes'], ['K3d2', 'K3d3']),
+    obl('C20.burn.dsd.run_outcomes', _M + 'DSD', [_T + 'dsdcyl_run_outcomes'], ['DSDCyl']),
+    obl('C20.burn.k1.well_defined', _M + 'K1', [_T + 'k1d2_welldefined', _T + 'k1d3_welldefined'], ['K1d2', 'K1d3'], B.finite['k1']),
+    obl('C20.burn.k2.well_defined', _M + 'K2', [_T + 'k2d2_welldefined', _T + 'k2d3_welldefined'], ['K2d2', 'K2d3'], B.finite['k2']),
+    obl('C20.burn.k3.well_defined', _M + 'K3', [_T + 'k3d2_welldefined', _T + 'k3d3_welldefined'], ['K3d2', 'K3d3'], B.finite['k3']),
+    obl('C20.burn.dsd.well_defined', _M + 'DSD', [_T + 'dsdcyl_welldefined'], ['DSDCyl'], B.finite['dsd']),
     # findings: negation of "accepts -> Documented" at concrete witnesses, reproduced on the real code
     obl('C20.burn.dsd.curvature_not_checked', _F, [_T + n for n in ('dsd_accepts_undocumented_r1', 'dsd_accepts_undocumented_r2',
                                                                     'dsd_not_welldefined_r1', 'dsd_not_welldefined_r2')],
